@@ -96,6 +96,16 @@ static inline void vstr_erase(vstr* s, size_t pos, size_t len) {
   for (size_t i = 0; i < VSTR_CAP; i++) { if (i >= pos && i + l < VSTR_CAP + 1) s->d[i] = (i + l <= VSTR_CAP) ? s->d[i + l] : 0; }
   s->n = s->n - l; s->d[s->n] = 0;
 }
+/* std::string::replace(pos, len, count, ch) for count <= len (shrinking or equal) */
+static inline void vstr_replace_fill(vstr* s, size_t pos, size_t len, size_t count, char ch) {
+  __CPROVER_assert(pos <= s->n, "std::string::replace: pos <= size() (else std::out_of_range)");
+  size_t avail = s->n - pos; size_t l = len < avail ? len : avail;
+  __CPROVER_assert(count <= l, "model: replace(pos, len, count, ch) only with count <= len");
+  if (count <= l) {
+    vstr_erase(s, pos + count, l - count);
+    for (size_t i = 0; i < VSTR_CAP; i++) { if (i >= pos && i < pos + count) s->d[i] = ch; }
+  }
+}
 static inline char* vstr_ref(vstr* s, size_t i) { __CPROVER_assert(i < s->n, "std::string::operator[] index < size()"); return &s->d[i < VSTR_CAP ? i : 0]; }
 #endif
 #ifndef VSTR_EXT2_H
